@@ -81,7 +81,11 @@ pub fn my_roots(cfg: &Cfg) -> Vec<RootCtx> {
 
 /// Deterministic value stream of a root: first values that force every
 /// variant of an outermost sum type, then seeded random ones.
+pub static NVALS_OVERRIDE: std::sync::atomic::AtomicUsize = std::sync::atomic::AtomicUsize::new(0);
+
 pub fn values(rc: &RootCtx, seed: u64, n: usize) -> Vec<Val> {
+    let o = NVALS_OVERRIDE.load(std::sync::atomic::Ordering::Relaxed);
+    let n = if o > 0 { o } else { n.max(1) };
     let mut r = Rng::new(seed ^ fnv(rc.name));
     let p = GenParams::default();
     let mut out = vec![];
